@@ -42,6 +42,8 @@ class Gen:
         mean = mean or r.choice([40, 80, 150, 300] if self.small else [100, 500, 2000])
         fam = r.choice(["gauss", "gauss", "uniform", "schulz_zimm", "log_normal", "poisson", "flory_schulz"])
         fam = self.family or fam
+        if fam == "gauss_wide":      # sigma larger than the mean: a good share of the draws is negative
+            return f"|gauss({self.num(mean)},{self.ws()}{self.num(mean * r.choice([1.5, 2.5]))})|"
         if fam == "gauss":
             return f"|gauss({self.num(mean)},{self.ws()}{self.num(r.choice([1, mean * 0.1, mean * 0.4]))})|"
         if fam == "uniform":
